@@ -517,7 +517,11 @@ def g4(rng):
         loops = [None, [Q, S], [S, Q], [W, Q], [W, S], [Q, W], [S, W]]
     elif mode == "p1":
         sz = rng.randint(1, 4)
-        case["mapping"]["partitioning"] = {"O": {Q: ["uniform_shape(%d)" % sz], W: ["follow(%s)" % Q]}}
+        if rng.random() < 0.25:
+            case["mapping"]["partitioning"] = {"O": {Q: ["nway_shape(%d)" % sz], W: ["follow(%s)" % Q]}}
+            tags.append("nway")
+        else:
+            case["mapping"]["partitioning"] = {"O": {Q: ["uniform_shape(%d)" % sz], W: ["follow(%s)" % Q]}}
         loops = [None, [Q + "1", Q + "0", S], [Q + "1", S, Q + "0"], [Q + "1", W + "0", Q + "0"], [Q + "1", W + "0", S], [S, Q + "1", Q + "0"]]
         tags.append("part1")
     else:
@@ -530,6 +534,8 @@ def g4(rng):
     stack = (case["mapping"].get("partitioning") or {}).get("O", {}).get(Q, [])
     for i, pstr in enumerate(reversed(stack)):
         sz = int(pstr[pstr.index("(") + 1:-1])
+        if pstr.startswith("nway"):
+            sz = (Qx - 1) // sz + 1
         case["env"][Q + str(i)] = sz
         case["env"][W + str(i)] = a * sz
     loop = rng.choice(loops)
